@@ -18,6 +18,15 @@
       wcomp  := null | (s "<json leaf>") | (bad "<msg>") | (list true|false <wcomp>…) | (wobj <type name> <wfield>…)
     → as for `run`
 
+  executor level, from the document as written (ApiFu/C02/CollectInst.lean: `Request.ofDocC` — the
+  model evaluates directive arguments, type conditions and fragment lookups itself)
+    (runc query|mutation|mutation-settle (<csel>…) <root type name> (<wfield>…) (<mask>…)
+          (vars (v <name> true|false|null)…) (frags (fr <name> <type condition> (<csel>…))…)
+          (types (obj <name> (<interface>…)) | (iface <name>) | (union <name> (<member>…))…))
+      csel := (f <key> <name> (<dir>…) (<csel>…)) | (inl (<dir>…) <type condition>|- (<csel>…)) | (spr (<dir>…) <fragment>)
+      dir  := (d <directive name> lit true|false) | (d <directive name> var <variable>)
+    → as for `run`
+
   combinator level
     (comb <term> (<step>…))
       term := (ready ok null|<n>) | (ready err "<msg>") | (promise <id>) | (map catch|nonnull|log <tag> <term>)
@@ -32,6 +41,8 @@ import ApiFu.C02.Model
 import ApiFu.C02.Spec
 import ApiFu.C02.Nulls
 import ApiFu.C02.Collect
+import ApiFu.C02.Combinators
+import ApiFu.C02.CollectInst
 
 open ApiFu ApiFu.C02
 
@@ -152,6 +163,56 @@ def handleRunDoc (kind : String) (sels : List Sexp) (tname : String) (world : Li
                             settle := settle }
   pure (outSexp rq (run rq))
 
+/-! executor level, from the document as written -/
+
+def parseDir : Sexp → Option Dir
+  | .list [.atom "d", .atom name, .atom "lit", b] => do pure ⟨name, .lit (← parseBool b)⟩
+  | .list [.atom "d", .atom name, .atom "var", .atom v] => some ⟨name, .var v⟩
+  | _ => none
+
+partial def parseCSel : Sexp → Option CSel
+  | .list [.atom "f", .atom key, .atom name, .list dirs, .list sub] => do
+    pure (.field key name (← dirs.mapM parseDir) (← sub.mapM parseCSel))
+  | .list [.atom "inl", .list dirs, .atom cond, .list body] => do
+    pure (.inline (← dirs.mapM parseDir) (if cond = "-" then none else some cond) (← body.mapM parseCSel))
+  | .list [.atom "spr", .list dirs, .atom frag] => do
+    pure (.spread (← dirs.mapM parseDir) frag)
+  | _ => none
+
+def parseVar : Sexp → Option (String × Option Bool)
+  | .list [.atom "v", .atom name, .atom "true"] => some (name, some true)
+  | .list [.atom "v", .atom name, .atom "false"] => some (name, some false)
+  | .list [.atom "v", .atom name, .atom "null"] => some (name, none)
+  | _ => none
+
+def parseFrag : Sexp → Option FragDef
+  | .list [.atom "fr", .atom name, .atom cond, .list body] => do pure ⟨name, cond, ← body.mapM parseCSel⟩
+  | _ => none
+
+def atomsOf (xs : List Sexp) : Option (List String) := xs.mapM Sexp.atom?
+
+def parseType : Sexp → Option (String × TypeDef)
+  | .list [.atom "obj", .atom name, .list ifs] => do pure (name, .object (← atomsOf ifs))
+  | .list [.atom "iface", .atom name] => some (name, .iface)
+  | .list [.atom "union", .atom name, .list ms] => do pure (name, .union (← atomsOf ms))
+  | _ => none
+
+def handleRunC (kind : String) (sels : List Sexp) (tname : String) (world sched vars frags types : List Sexp) :
+    Option Sexp := do
+  let sels ← sels.mapM parseCSel
+  let world ← world.mapM parseWField
+  let sched ← sched.mapM Sexp.nat?
+  let env : Env := { vars := ← vars.mapM parseVar, frags := ← frags.mapM parseFrag, types := ← types.mapM parseType,
+                     fuel := 100000 }
+  let (mutation, settle) ← (match kind with
+    | "query" => some (false, false)
+    | "mutation" => some (true, false)
+    | "mutation-settle" => some (true, true)
+    | _ => none)
+  let rq := Request.ofDocC { mutation := mutation, sels := sels, env := env, tname := tname, world := world,
+                             sched := sched, settle := settle }
+  pure (outSexp rq (run rq))
+
 /-! combinator level -/
 
 def parseValAtom : String → Val
@@ -220,14 +281,27 @@ def handleComb (t : Sexp) (steps : List Sexp) : Option Sexp := do
   let states := if S'.crash then ["CRASH"] else states
   pure (Sexp.node "comb" [.list (states.map Sexp.atom), .list ((combLog S'.log).map Sexp.atom)])
 
+/-- `(inventory)` → `(inventory (c "<Go name>" <kind> <params> <variadic> <type params> "<model>" ("<theorem>"…))…)`:
+    the model's list of the exported items of future.go (ApiFu/C02/Combinators.lean). -/
+def inventorySexp : Sexp :=
+  Sexp.node "inventory" (combinatorTable.map (fun e =>
+    Sexp.node "c" [.atom e.go, .atom e.kind, Sexp.ofNat e.params, .atom (if e.variadic then "true" else "false"),
+      Sexp.ofNat e.typeParams, .atom e.model, .list (e.theorems.map Sexp.atom)]))
+
 def handle (line : String) : String :=
   match Sexp.parse line with
+  | some (.list [.atom "inventory"]) => toString inventorySexp
   | some (.list [.atom "run", .atom kind, .list fields, .list sched]) =>
     match handleRun kind fields sched with
     | some s => toString s
     | none => "bad-op"
   | some (.list [.atom "rund", .atom kind, .list sels, .atom tname, .list world, .list sched]) =>
     match handleRunDoc kind sels tname world sched with
+    | some s => toString s
+    | none => "bad-op"
+  | some (.list [.atom "runc", .atom kind, .list sels, .atom tname, .list world, .list sched,
+      .list (.atom "vars" :: vars), .list (.atom "frags" :: frags), .list (.atom "types" :: types)]) =>
+    match handleRunC kind sels tname world sched vars frags types with
     | some s => toString s
     | none => "bad-op"
   | some (.list [.atom "comb", t, .list steps]) =>
